@@ -5,10 +5,10 @@
 CONSTANTS
   BUF = 3
   MaxSends = @@MAXS@@
-  MaxSlow = 7
+  MaxSlow = 5
   Lims = {"none", "tiny", "edge", "large"}
   Classes = @@CLS@@
-  Faults = TRUE
+  Faults = @@FAULTS@@
   Replace = @@REPL@@
   ExtCloseOn = TRUE
   DevLimiter = FALSE
